@@ -34,6 +34,7 @@ import Cpf.Scan.Merge
 import Cpf.Lemmas.Pool
 import Cpf.Lemmas.PoolF
 import Cpf.Props.C03
+import Cpf.Scan.Attrs
 
 namespace Cpf.Props.C07
 open Cpf.Scan.Merge Cpf.Generated
@@ -456,5 +457,38 @@ example :
     let c : Local Nat String Nat := ⟨[(4, "c4")], []⟩
     lookup (merge [a, b, c]).nodes 3 = some "b3" ∧ lookup (merge [c, b, a]).nodes 3 = some "b3" ∧
     (merge [c, b, a]).edges = [20, 21, 10] := by decide
+
+/-! ### the declaration x invocation pass ranges over a Go map
+
+`markInvokedMethods` visits `graph.Nodes` (a map) twice, nested; Go randomises the order of every such range. What
+the pass derives (`hasAccess`, observable through `md.toString()`) is the same for every order, and one matching
+call among many of the same name is enough — so repeated scans agree (tie: the per-file graphs that checks/c07.py
+builds and merges carry `hasAccess`; the generated files call overloads with different argument counts). -/
+
+/-- every iteration order of the calls gives the same `hasAccess` -/
+theorem C07_hasAccess_order_independent (s s' : List (Cpf.Scan.Bytes × Nat)) (h : s.Perm s') (name : Cpf.Scan.Bytes) (k : Nat) :
+    Cpf.Scan.hasAccess s name k = Cpf.Scan.hasAccess s' name k := by
+  unfold Cpf.Scan.hasAccess
+  exact h.any_eq
+
+/-- calls that do not match (another name, or the same name with another argument count) change nothing, wherever
+    they come in the order: a matching call is never shadowed by a later call of the same name -/
+theorem C07_hasAccess_other_calls_irrelevant (s : List (Cpf.Scan.Bytes × Nat)) (x : Cpf.Scan.Bytes × Nat) (name : Cpf.Scan.Bytes) (k : Nat)
+    (hx : ¬ (x.1 = name ∧ x.2 = k)) (pre post : List (Cpf.Scan.Bytes × Nat)) (hs : s = pre ++ post) :
+    Cpf.Scan.hasAccess (pre ++ x :: post) name k = Cpf.Scan.hasAccess s name k := by
+  subst hs
+  unfold Cpf.Scan.hasAccess
+  have hb : (x.1 == name && x.2 == k) = false := by
+    cases h : (x.1 == name && x.2 == k)
+    · rfl
+    · exfalso; apply hx
+      simp only [Bool.and_eq_true, beq_iff_eq] at h
+      exact h
+  simp only [List.any_append, List.any_cons, hb, Bool.false_or]
+
+/-- Non-vacuity: `log(a)` and `log(a, b)` called, `log(String)` declared — in either order of the two calls. -/
+example : Cpf.Scan.hasAccess [([108, 111, 103], 1), ([108, 111, 103], 2)] [108, 111, 103] 1 = true
+        ∧ Cpf.Scan.hasAccess [([108, 111, 103], 2), ([108, 111, 103], 1)] [108, 111, 103] 1 = true
+        ∧ Cpf.Scan.hasAccess [([108, 111, 103], 2)] [108, 111, 103] 1 = false := by decide
 
 end Cpf.Props.C07
